@@ -10,12 +10,16 @@ import (
 	"github.com/icon-project/goloop/consensus"
 )
 
-func directedNames() []string { return []string{"stale-lock", "old-polka", "split-precommit"} }
+func directedNames() []string {
+	return []string{"stale-lock", "old-polka", "split-precommit", "equivocal-proposal", "late-decision"}
+}
 
 func directedShape(name string) (n int, byz []int, heights int) {
 	switch name {
 	case "stale-lock":
 		return 4, []int{3}, 1
+	case "equivocal-proposal":
+		return 4, []int{1}, 1 // the Byzantine validator is the proposer of (height 1, round 0)
 	}
 	return 4, []int{3}, 1
 }
@@ -28,6 +32,10 @@ func directedScenario(style string) func(*netw) {
 		return scenarioOldPolka
 	case "directed:split-precommit":
 		return scenarioSplitPrecommit
+	case "directed:equivocal-proposal":
+		return scenarioEquivocalProposal
+	case "directed:late-decision":
+		return scenarioLateDecision
 	}
 	return nil
 }
@@ -478,5 +486,148 @@ func scenarioSplitPrecommit(nw *netw) {
 	nw.give(C, voteOfRound(A, 1, pc))
 	nw.pump(300 * time.Millisecond)
 	nw.note("split-precommit: C holds B-precommits of V@0, A@1, Z@2; C finalized=%v", nw.nodes[C].fin[1])
+	nw.scriptOK = true
+}
+
+// scenarioEquivocalProposal: the decided block must be the one that is
+// finalized, also by a validator that holds ANOTHER complete proposal and learns
+// the decision from the precommits alone (height 1, Z=1 Byzantine proposer of
+// round 0, V=0, B=2, C=3 real):
+//
+//	r0  Z proposes X (proposal + all parts) to V and Y to B and C (V also gets
+//	    Y's parts: they go to its block part cache); V prevotes X, B and C
+//	    prevote Y, Z prevotes Y to B and C: polka for Y at B and C, they
+//	    precommit Y, Z precommits Y.
+//	    V is given the three PRECOMMITS for Y and none of the prevotes for Y:
+//	    +2/3 precommits -> enterCommit(Y) while currentBlockParts holds the
+//	    complete block X.  V must finalize Y (as B and C do).
+func scenarioEquivocalProposal(nw *netw) {
+	const Z, V, B, C = 1, 0, 2, 3
+	const pv, pc = 0, 1
+	sec := time.Second
+	step := func(ok bool, what string) bool {
+		if !ok {
+			nw.note("equivocal-proposal: did not reach: %s", what)
+		}
+		return ok
+	}
+	ts := func() int64 { return nw.nowMicro() }
+	X := nw.shadowBlock(Z, 1, "x")
+	Y := nw.shadowBlock(Z, 1, "y")
+	if !step(X != nil && Y != nil && X.ID != Y.ID, "two blocks of the Byzantine proposer") {
+		return
+	}
+	nw.injectProposal(Z, 1, 0, -1, X, []int{V}, true)
+	nw.injectProposal(Z, 1, 0, -1, Y, []int{B, C}, true)
+	isProp := func(b *blockInfo) func(p *packet) bool {
+		return func(p *packet) bool {
+			return (p.Kind == "proposal" && p.Blk == b.ID) || (p.Kind == "part" && p.Blk == b.ID)
+		}
+	}
+	nw.give(V, isProp(X))
+	nw.give(B, isProp(Y))
+	nw.give(C, isProp(Y))
+	// the parts of Y reach V as well (block part cache)
+	for _, p := range nw.pool {
+		if p.Kind == "part" && p.Blk == Y.ID {
+			p.only = nil
+		}
+	}
+	nw.give(V, func(p *packet) bool { return p.Kind == "part" && p.Blk == Y.ID })
+	if !step(nw.waitFor(4*sec, func() bool { return nw.hasVote(V, 0, pv) && nw.hasVote(B, 0, pv) && nw.hasVote(C, 0, pv) }), "prevotes of round 0 (V: X, B and C: Y)") {
+		return
+	}
+	step(nw.st(V).CurID == X.Key && nw.st(V).CurComplete, "V holds the complete block X")
+	nw.injectVote(nw.mkVote(Z, consensus.VoteTypePrevote, 1, 0, Y, ts()), []int{B, C})
+	nw.give(B, voteOfRound(C, 0, pv))
+	nw.give(B, voteOfRound(Z, 0, pv))
+	nw.give(C, voteOfRound(B, 0, pv))
+	nw.give(C, voteOfRound(Z, 0, pv))
+	if !step(nw.waitFor(4*sec, func() bool { return nw.hasVote(B, 0, pc) && nw.hasVote(C, 0, pc) }), "B and C precommit Y") {
+		return
+	}
+	nw.injectVote(nw.mkVote(Z, consensus.VoteTypePrecommit, 1, 0, Y, ts()), nil)
+	// V learns the decision from the precommits alone
+	nw.give(V, voteOfRound(B, 0, pc))
+	nw.give(V, voteOfRound(C, 0, pc))
+	nw.give(V, voteOfRound(Z, 0, pc))
+	nw.waitFor(3*sec, func() bool { return nw.nodes[V].fin[1] })
+	nw.note("equivocal-proposal: V finalized=%v", nw.nodes[V].fin[1])
+	// B and C decide as well
+	nw.give(B, voteOfRound(C, 0, pc))
+	nw.give(B, voteOfRound(Z, 0, pc))
+	nw.give(C, voteOfRound(B, 0, pc))
+	nw.give(C, voteOfRound(Z, 0, pc))
+	nw.waitFor(3*sec, func() bool { return nw.nodes[B].fin[1] && nw.nodes[C].fin[1] })
+	nw.scriptOK = true
+}
+
+// scenarioLateDecision: a decision of an EARLIER round reaches a validator that
+// has moved on and holds the complete proposal of a later round; nobody
+// equivocates (height 1, proposers 1,2: A=1, V=2, C=0 real, Z=3 votes like a
+// slow correct validator):
+//
+//	r0  A proposes Y; A, V, C prevote Y, Z prevotes nil (it "missed" the
+//	    proposal); A and C see the polka and precommit Y; V sees no polka (one
+//	    prevote is delayed), times out and precommits nil; Z precommits Y.
+//	    A and C finalize Y (precommits of A, C, Z).  V has the precommits of A
+//	    and C only: no decision, precommit timeout, round 1.
+//	r1  V is the proposer, unlocked: it proposes a fresh block Z' and holds it
+//	    complete and validated.  Now Z's delayed round-0 precommit for Y
+//	    arrives: +2/3 precommits for Y in round 0 -> enterCommit(Y, 0).
+//	    V must finalize Y, not the block it holds.
+func scenarioLateDecision(nw *netw) {
+	const A, V, Z, C = 1, 2, 3, 0
+	const pv, pc = 0, 1
+	sec := time.Second
+	step := func(ok bool, what string) bool {
+		if !ok {
+			nw.note("late-decision: did not reach: %s", what)
+		}
+		return ok
+	}
+	ts := func() int64 { return nw.nowMicro() }
+	isProp := func(round int32) func(p *packet) bool {
+		return func(p *packet) bool { return (p.Kind == "proposal" && p.Round == round) || p.Kind == "part" }
+	}
+	if !step(nw.waitFor(4*sec, func() bool { return len(nw.proposalsOf(1, 0)) > 0 }), "proposal of A in round 0") {
+		return
+	}
+	Y := nw.proposalsOf(1, 0)[0]
+	nw.give(V, isProp(0))
+	nw.give(C, isProp(0))
+	if !step(nw.waitFor(4*sec, func() bool { return nw.hasVote(A, 0, pv) && nw.hasVote(V, 0, pv) && nw.hasVote(C, 0, pv) }), "prevotes of round 0") {
+		return
+	}
+	nw.injectVote(nw.mkVote(Z, consensus.VoteTypePrevote, 1, 0, nil, ts()), nil)
+	nw.give(A, voteOfRound(C, 0, pv))
+	nw.give(A, voteOfRound(V, 0, pv))
+	nw.give(C, voteOfRound(A, 0, pv))
+	nw.give(C, voteOfRound(V, 0, pv))
+	nw.give(V, voteOfRound(A, 0, pv))
+	nw.give(V, voteOfRound(Z, 0, pv))
+	if !step(nw.waitFor(4*sec, func() bool { return nw.hasVote(A, 0, pc) && nw.hasVote(C, 0, pc) && nw.hasVote(V, 0, pc) }), "precommits of round 0 (A, C: Y; V: nil)") {
+		return
+	}
+	nw.injectVote(nw.mkVote(Z, consensus.VoteTypePrecommit, 1, 0, Y, ts()), nil)
+	nw.give(A, voteOfRound(C, 0, pc))
+	nw.give(A, voteOfRound(Z, 0, pc))
+	nw.give(C, voteOfRound(A, 0, pc))
+	nw.give(C, voteOfRound(Z, 0, pc))
+	if !step(nw.waitFor(4*sec, func() bool { return nw.nodes[A].fin[1] && nw.nodes[C].fin[1] }), "A and C finalize Y") {
+		return
+	}
+	// V: two precommits for Y + its own nil: no decision; precommit timeout; round 1
+	nw.give(V, voteOfRound(A, 0, pc))
+	nw.give(V, voteOfRound(C, 0, pc))
+	if !step(nw.waitFor(5*sec, func() bool { return nw.st(V).Round >= 1 && len(nw.proposalsOf(1, 1)) > 0 }), "V in round 1 with its own proposal") {
+		return
+	}
+	Zp := nw.proposalsOf(1, 1)[0]
+	step(Zp.ID != Y.ID && nw.st(V).CurID == Zp.Key && nw.st(V).CurComplete, "V holds the complete block of round 1")
+	// the delayed round-0 precommit arrives
+	nw.give(V, voteOfRound(Z, 0, pc))
+	nw.waitFor(3*sec, func() bool { return nw.nodes[V].fin[1] })
+	nw.note("late-decision: V finalized=%v (decided block #%d, V's round-1 proposal #%d)", nw.nodes[V].fin[1], Y.ID, Zp.ID)
 	nw.scriptOK = true
 }
